@@ -2232,11 +2232,13 @@ class Engine:
             ty = fn.locals.get(dm.group(1)) if dm else None
             if dest == '_0': ty = fn.ret
             v = self.ex.fresh(ty, self.ex.fresh_name('ret_' + re.sub(r'\W+', '_', callee)[-30:])) if ty else Opaque('?', callee)
-            if isinstance(v, BoolV) and not self.is_opaque(callee) and re.search(r'^(core|std|alloc)::|^<.* as (core::|std::)?(iter::)?(Iterator|PartialEq|PartialOrd|Ord)[<>]|slice::<impl|^(Option|Result|Vec)::<|str>::', callee):
+            if isinstance(v, BoolV) and not self.is_opaque(callee) and not any(re.search(c_, callee) and re.search(f_, fn.name) for c_, f_ in FREE_STD_PREDICATES) and re.search(r'^(core|std|alloc)::|^<.* as (core::|std::)?(iter::)?(Iterator|PartialEq|PartialOrd|Ord)[<>]|slice::<impl|^(Option|Result|Vec)::<|str>::', callee):
                 # a PREDICATE of the standard library that the encoder has no model for: its truth value is arbitrary here. A counterexample that hinges on it is
                 # a gap of the encoder, not a finding (see Ob.prove): remember the symbol
                 if not hasattr(self.ex, 'unmodelled_preds'): self.ex.unmodelled_preds = {}
                 for n_ in free_names(v.e): self.ex.unmodelled_preds[n_] = callee
+            if os.environ.get('MIRSYM_DEBUG_UNMODELLED') and not self.is_opaque(callee) and re.search(r'^(core|std|alloc)::|^<.* as (core::|std::)?(iter::)?(Iterator|PartialEq|PartialOrd|Ord)[<>]|slice::<impl|^(Option|Result|Vec)::<|str>::', callee):
+                with open(os.environ['MIRSYM_DEBUG_UNMODELLED'], 'a') as fh_: fh_.write(f'{type(v).__name__}\t{ty}\t{callee}\t{fn.name[-60:]}\n')
             # an opaque callee may write through every `&mut` argument: havoc the pointees (over-approximation)
             hav = []
             for astr, aval in zip([a for a in split_top(argstr, ',') if a.strip()], args):
@@ -2265,6 +2267,16 @@ def free_names(e):
         if z3.is_const(x) and x.decl().kind() == z3.Z3_OP_UNINTERPRETED: out.add(x.decl().name())
         else: stack.extend(x.children())
     return out
+
+
+# Unmodelled std predicates whose arguments are raw account bytes that nothing else in the encoding describes: an arbitrary Boolean IS their exact abstraction, so a
+# counterexample may mention them (every other unmodelled std predicate makes a counterexample undecided, see Ob.prove). (callee regex, enclosing function regex)
+FREE_STD_PREDICATES = [
+    (r'^<&\[u8\] as PartialEq>::ne$', r'load_price_update_v2_checked$'),                   # Pyth account discriminator test on the raw data
+    (r'^<\[u8\] as PartialEq<\[u8; 8\]>>::ne$', r'parse_swb_ignore_alignment$'),          # Switchboard account discriminator test on the raw data
+    (r'^<\[u8; 32\] as PartialEq>::eq$', r'price_update\.rs[^>]*>::get_price_unchecked$'),  # Pyth feed-id comparison inside the SDK (the feed id is not modelled)
+    (r'^<Skip<std::slice::Iter<\'_, MinimalObligationCollateral>> as Iterator>::all::<', r'kamino/(deposit|withdraw)\.rs[^>]*>::try_accounts$'),   # "the obligation's other collateral slots are unused"
+]
 
 
 class Unmergeable(Exception):
